@@ -29,6 +29,7 @@ int hexval(int c);
 int parse_hex(const char *s, uint8_t *dst, int max);
 void up_feed(const uint8_t *b, size_t n);
 bool rx_wait_idle(int max_ms);
+bool up_pending(void);
 void vt_register_script_thread(void);
 void vt_advance_us(uint64_t us);
 uint64_t vt_now_us(void);
